@@ -101,7 +101,8 @@ func (c *ctx) assembleFacts() {
 
 	// fileSeedSegment.WriteInto: when a plain copy is used
 	var useCopy ast.Expr
-	var wiCopy, wiClone []ast.Expr
+	var wiCopy, wiClone, wiFallback []ast.Expr
+	wiCloneAssigned := false
 	var sizeCheck ast.Expr
 	if fd := c.funcDecl(c.files, "fileSeedSegment", "WriteInto"); fd != nil {
 		for _, st := range fd.Body.List {
@@ -125,6 +126,21 @@ func (c *ctx) assembleFacts() {
 					wiClone = call.Args
 				}
 			}
+			if as, ok := st.(*ast.AssignStmt); ok && len(as.Rhs) == 1 {
+				if call, ok := as.Rhs[0].(*ast.CallExpr); ok && strings.HasSuffix(exprString(call.Fun), ".clone") {
+					wiClone = call.Args
+					wiCloneAssigned = true
+				}
+			}
+			// `if err != nil { return s.copy(…) }` right after the clone: fall back to a plain copy
+			if ifs, ok := st.(*ast.IfStmt); ok && wiCloneAssigned && exprString(ifs.Cond) == "err!=nil" {
+				walk(ifs.Body, func(n ast.Node) bool {
+					if call, ok := n.(*ast.CallExpr); ok && strings.HasSuffix(exprString(call.Fun), ".copy") {
+						wiFallback = call.Args
+					}
+					return true
+				})
+			}
 		}
 	}
 	wenv := map[string]string{"s.canReflink": "canReflink", "s.chunks[0].Start": "srcStart", "offset": "offset", "length": "length",
@@ -134,6 +150,8 @@ func (c *ctx) assembleFacts() {
 	c.emitExpr("fswrite_wrongSize", "fsWrite_wrongSize", WP, "Bool", sizeCheck, wenv, "false")
 	triple("fswrite_copyArgs", "fsWrite_copyArgs", wiCopy, 2, WP, wenv)
 	triple("fswrite_cloneArgs", "fsWrite_cloneArgs", wiClone, 2, WP, wenv)
+	c.lean.WriteString("-- a refused clone is followed by a plain copy of the whole range with these arguments\n")
+	triple("fswrite_cloneFallbackArgs", "fsWrite_cloneFallbackArgs", wiFallback, 2, WP, wenv)
 
 	// nullChunkSection.clone
 	c.lean.WriteString("\n/-! nullseed.go: nullChunkSection.clone -/\n")
